@@ -113,6 +113,42 @@ theorem refusal_noop_remove_in_run (s0 : SimS) (fuel : Nat) (h : lwf0 s0 = true)
   | none => simp [hs] at this
   | some s => exact Worker.removeTask_ok_of_LOK w t s hl hs
 
+/-- **`sim_idle_full` over every run**: in every state a run can be in, a worker on which no task
+is resident and no profile is loaded or loading has an empty ledger and its whole capacity
+available. -/
+theorem idle_worker_full_in_run (s0 : SimS) (fuel : Nat) (h : lwf0 s0 = true) :
+    ∀ p ∈ (simulate s0 fuel).2.pools.toList, ∀ w ∈ p.workers,
+      w.placed = [] → w.availProf = [] → w.pendProf = [] → w.res.allocs = [] ∧ w.res.avail = w.res.total := by
+  intro p hp w hw hpl hav hpe
+  obtain ⟨ht, hb⟩ := (simulate_ledger_weak s0 fuel (good_initial s0 h)).2 p hp w hw
+  have hempty : w.res.allocs = [] := by
+    cases ha : w.res.allocs with
+    | nil => rfl
+    | cons e rest =>
+      exfalso
+      obtain ⟨c, l⟩ := e
+      have hg : AList.get? w.res.allocs c = some l := by rw [ha]; simp [AList.get?]
+      cases c with
+      | task t =>
+        obtain ⟨s, hs, _⟩ := ht.heldTask t l hg
+        rw [hpl] at hs; simp [AList.get?] at hs
+      | profile q =>
+        rcases ht.heldProf q l hg with h1 | h1
+        · rw [hav] at h1; simp [AList.has, AList.get?] at h1
+        · rw [hpe] at h1; simp [AList.has, AList.get?] at h1
+      | batch g =>
+        obtain ⟨sid, _, h2⟩ := hb.heldBatch g l hg
+        cases hms : AList.get? w.batches sid with
+        | none => simp [AList.has, hms] at h2
+        | some ms =>
+          obtain ⟨_, hne, hmem⟩ := hb.batchMem sid ms hms
+          cases ms with
+          | nil => exact hne rfl
+          | cons t0 _ =>
+            obtain ⟨s, hs, _⟩ := hmem t0 (List.mem_cons_self ..)
+            rw [hpl] at hs; simp [AList.get?] at hs
+  exact ⟨hempty, Resources.empty_full w.res ht.rinv hempty⟩
+
 /-- Non-vacuity: a worker with one resident task satisfies the set equation, a worker whose
 ledger forgot the task does not; a worker with a two-member batch (one placeholder entry). -/
 example :
